@@ -191,6 +191,76 @@ def oracle(spec, terms, shape):
     return msg, samples
 
 
+# ------------------------------------------------------------------ terminal kinds: what a terminal is GIVEN is what it yields
+# "terminals yield their stored array ... for every terminal value": arrays of other ranks, memory layouts and float widths than the
+# (n_variables, n_dimensions) float64 C-arrays a TreeSpace creates.  The reference is computed from the arrays handed to Node(...),
+# never from what the node says it holds.
+
+def kind_terms(kind):
+    base = np.array([[1.5, -2.25, 0.0], [3.0, 0.5, -7.0]])
+    if kind == '0d':
+        return [np.array(2.5), np.array(-0.75)]
+    if kind == '1d':
+        return [np.array([1.5, -2.0, 0.0]), np.array([0.25, 4.0, -1.0])]
+    if kind == 'f32':
+        return [np.array([[1.5], [-2.25]], dtype=np.float32), np.array([[0.0], [-1e-10]], dtype=np.float32)]
+    if kind == 'fortran':
+        return [np.asfortranarray(base), np.asfortranarray(base[::-1] * 0.5)]
+    if kind == 'view':
+        big = np.arange(24, dtype=float).reshape(4, 6) - 7.5
+        return [big[::2, ::3], big.T[1::3, :2].T[:, :2]]
+    if kind == '3d':
+        return [base.reshape(1, 2, 3), (base * -0.5).reshape(1, 2, 3)]
+    raise KeyError(kind)
+
+
+KINDS = ['0d', '1d', 'f32', 'fortran', 'view', '3d']
+
+
+def strict_same(a, b):
+    return isinstance(a, np.ndarray) and isinstance(b, np.ndarray) and a.shape == b.shape and a.dtype == b.dtype and a.tobytes() == b.tobytes()
+
+
+def run_kind(kind, spec):
+    given = kind_terms(kind)
+    keep = [np.array(t, copy=True) for t in given]
+    root = build(spec, given)
+
+    def walk(sp, n):
+        with np.errstate(all='ignore'):
+            want = reference(sp, keep)
+            try:
+                p = n.position
+            except Exception as ex:  # noqa: BLE001
+                return '%s node raised %s: %s' % (n.name, type(ex).__name__, ex)
+        if not strict_same(np.asarray(p), np.asarray(want)):
+            return '%s %s over %s terminals: position has shape %s dtype %s, the expression over the arrays given to Node(...) has shape %s dtype %s%s' % (
+                n.type.lower(), n.name, kind, getattr(p, 'shape', None), getattr(p, 'dtype', None), want.shape, want.dtype,
+                '' if getattr(p, 'shape', None) != want.shape or getattr(p, 'dtype', None) != want.dtype else ' and other values')
+        if sp[0] != 'T':
+            for sub, child in zip(sp[2:], [n.left, n.right]):
+                m = walk(sub, child)
+                if m:
+                    return m
+        return None
+    msg = walk(spec, root)
+    if not msg and any(not strict_same(a, b) for a, b in zip(keep, given)):
+        msg = 'evaluating modified a %s terminal array in place' % kind
+    return msg
+
+
+def kind_cases():
+    out = []
+    for kind in KINDS:
+        out.append((kind, ['T', 0]))
+        for op in UNARY:
+            out.append((kind, ['U', op, ['T', 0]]))
+        for op in BINARY:
+            out.append((kind, ['B', op, ['T', 0], ['T', 1]]))
+        out.append((kind, ['B', 'DIV', ['U', 'LOG', ['T', 1]], ['B', 'SUB', ['T', 0], ['T', 0]]]))
+    return out
+
+
 # ------------------------------------------------------------------ evaluate -> edit -> evaluate again
 
 def graph_reference(n):
@@ -481,6 +551,15 @@ def main():
             if 'node:history' not in [f['key'] for f in res['fails']]:
                 res['fails'].append({'key': 'node:history', 'msg': msg, 'spec': case['spec'], 'shape': case['shape'],
                                      'terms': case['terms'], 'history': case})
+    for kind, sp in kind_cases():
+        msg = run_kind(kind, sp)
+        res['edit_cases'] += 1
+        k = 'terminal-kind/%s' % kind
+        res['dist'][k] = res['dist'].get(k, 0) + 1
+        if msg:
+            res['n_failing_cases'] = res.get('n_failing_cases', 0) + 1
+            if 'node:terminal-kind' not in [f['key'] for f in res['fails']]:
+                res['fails'].append({'key': 'node:terminal-kind', 'msg': msg, 'spec': sp, 'shape': [], 'terms': [], 'kind': kind})
     # moderate-magnitude scalar cases so that every operator is represented in the Coq sample
     for name in UNARY + BINARY:
         for _ in range(6 if hlib.QUICK else 60):
